@@ -302,8 +302,12 @@ def run_case(ctx, case):
                     pv_ = rng.choice([v for v in rig.VERSIONS if v >= (1, 3)])
                     if pv_ >= (1, 4) or 'Sensitive' not in fnames:
                         if not (pv_ >= (2, 0) and 'Operation Policy Name' in fnames):
-                            full_r = srv.send([op_locate(mk())], ident, pv_)
-                            full = full_r.uids() if full_r.ok() else None
+                            try:
+                                full_r = srv.send([op_locate(mk())], ident, pv_)
+                                full = full_r.uids() if full_r.ok() else None
+                            except Exception:
+                                ctx.count('locate_not_encodable')
+                                full = None
                             off = rng.choice((None, 0, 1, 2, len(got), len(got) + 3, max(0, len(got) - 1)))
                             mx = rng.choice((None, 0, 1, 2, 3, len(got), len(got) + 5))
                             try:
